@@ -145,7 +145,41 @@ def mk_call(name, args, bb, t):
     the residual of `?` on an Option is always None."""
     if name.startswith("<std::option::Option<T> as std::ops::FromResidual<std::option::Option<std::convert::Infallible>>>::from_residual"):
         return E("agg", "adt:std::option::Option::None", (), t=NONE_RV)
+    if name.startswith("<std::option::Option<T> as std::ops::Try>::branch") and len(args) == 1:
+        # `?` on an Option whose variant is known on this path (a helper's `Some(..)` / `None` spliced in)
+        x = args[0]
+        while x.k in ("ref", "deref"):
+            x = x.a[0]
+        if x.k == "agg" and x.a[0] == "adt:std::option::Option::Some" and len(x.a[1]) == 1:
+            return E("agg", "adt:std::ops::ControlFlow::Continue", (x.a[1][0],), t=CONTINUE_RV)
+        if x.k == "agg" and x.a[0] == "adt:std::option::Option::None":
+            return E("agg", "adt:std::ops::ControlFlow::Break", (E("agg", "adt:std::option::Option::None", (), t=NONE_RV),), t=BREAK_RV)
+    if len(args) == 2 and "cmp::impls::<impl std::cmp::Ord for " in name and name.endswith(">::cmp"):
+        # comparison of two integers that are known on this path (e.g. the discriminants of two known variants of a field-less enum)
+        vs = [_known_int(a) for a in args]
+        if vs[0] is not None and vs[1] is not None:
+            v = "Less" if vs[0] < vs[1] else ("Equal" if vs[0] == vs[1] else "Greater")
+            return E("agg", "adt:std::cmp::Ordering::" + v, (), t={"k": "aggregate", "agg": "adt", "adt": "std::cmp::Ordering", "variant": v,
+                                                                   "vidx": {"Less": 0, "Equal": 1, "Greater": 2}[v], "fields": [], "ops": []})
     return E("call", name, args, bb, t=t)
+
+
+def _known_int(e):
+    while e.k in ("ref", "deref"):
+        e = e.a[0]
+    if e.k == "const" and e.a[0][0] in ("int", "bool"):
+        return int(e.a[0][1])
+    if e.k == "discr":
+        x = e.a[0]
+        while x.k in ("ref", "deref"):
+            x = x.a[0]
+        if x.k == "agg" and x.t is not None and "vidx" in x.t and x.t.get("adt") != "std::cmp::Ordering":
+            return x.t["vidx"]
+    return None
+
+
+CONTINUE_RV = {"k": "aggregate", "agg": "adt", "adt": "std::ops::ControlFlow", "variant": "Continue", "vidx": 0, "fields": ["0"], "ops": []}
+BREAK_RV = {"k": "aggregate", "agg": "adt", "adt": "std::ops::ControlFlow", "variant": "Break", "vidx": 1, "fields": ["0"], "ops": []}
 
 
 def callee_name(t):
